@@ -407,6 +407,57 @@ func init() {
 		}
 		return in.F.Bool(false), true
 	})
+	// encoding/binary fixed-width accessors as extract/concat over the byte cells,
+	// so that Uint64(PutUint64(v)) is syntactically v.
+	for _, order := range []string{"littleEndian", "bigEndian"} {
+		for _, w := range []int{16, 32, 64} {
+			order, w := order, w
+			nb := w / 8
+			reg(fmt.Sprintf("(encoding/binary.%s).Uint%d", order, w), func(in *Interp, _ *Frame, _ *ssa.Function, a []Value) (Value, bool) {
+				s := a[1].(SliceV)
+				if s.slen != nil {
+					return nil, false
+				}
+				if s.len < nb {
+					in.goPanicRuntime(fmt.Sprintf("index out of range [%d] with length %d", nb-1, s.len))
+				}
+				els := in.sliceElems(s)
+				var acc *Term
+				for k := 0; k < nb; k++ { // k-th least significant byte
+					idx := k
+					if order == "bigEndian" {
+						idx = nb - 1 - k
+					}
+					b := els[idx].(*Term)
+					if acc == nil {
+						acc = b
+					} else {
+						acc = in.F.Concat(b, acc)
+					}
+				}
+				return acc, true
+			})
+			reg(fmt.Sprintf("(encoding/binary.%s).PutUint%d", order, w), func(in *Interp, _ *Frame, _ *ssa.Function, a []Value) (Value, bool) {
+				s := a[1].(SliceV)
+				if s.slen != nil {
+					return nil, false
+				}
+				if s.len < nb {
+					in.goPanicRuntime(fmt.Sprintf("index out of range [%d] with length %d", nb-1, s.len))
+				}
+				els := in.sliceElems(s)
+				v := a[2].(*Term)
+				for k := 0; k < nb; k++ {
+					idx := k
+					if order == "bigEndian" {
+						idx = nb - 1 - k
+					}
+					els[idx] = in.F.Extract(8*k+7, 8*k, v)
+				}
+				return nil, true
+			})
+		}
+	}
 	// time.Now: an arbitrary instant (environment); no monotonic reading.
 	reg("time.Now", func(in *Interp, _ *Frame, fn *ssa.Function, a []Value) (Value, bool) {
 		st := in.zero(fn.Signature.Results().At(0).Type()).(*StructV)
